@@ -322,10 +322,22 @@ filters that reject NULLs are applied before the join -/
 def pushedForK (k : JoinKind) (side : Nat) (w : Option Expr) : List Expr :=
   (pushedFor side w).filter fun e => !(nullableSide k side) || e.nullRejecting
 
+/-- the top-level conjuncts of WHERE (`where_conjuncts` of `check_query_conditions`) -/
+def Expr.conjuncts : Expr → List Expr
+  | .and a b => a.conjuncts ++ b.conjuncts
+  | e => [e]
+
+/-- `where_is_applied_before_join` (repo commit f75cd04) for the first table: every top-level conjunct of WHERE is among
+the filters evaluated in the fetch of table 0 -/
+def whereApplied (k : JoinKind) (w : Option Expr) : Bool :=
+  match w with
+  | none => true
+  | some e => e.conjuncts.all fun c => decide (c ∈ pushedForK k 0 w)
+
 def plan (q : Q2) : Plan2 :=
   let useLimit := checkUseLimit q.having q.groupBy q.limit.isSome [.table true, .table true, .join q.kind]
   { push0 := pushedForK q.kind 0 q.w
-    limit0 := if useLimit then q.limit else none
+    limit0 := if useLimit && whereApplied q.kind q.w then q.limit else none
     push1 := pushedForK q.kind 1 q.w
     semi1 := semiAllowed q.kind   -- ON is a single top-level equality: IN filter unless the join is RIGHT / FULL
     kind := q.kind, c0 := q.c0, c1 := q.c1, w := q.w, limit := q.limit }
@@ -349,10 +361,10 @@ def JoinKind.isLeft : JoinKind → Bool
   | .leftOuter => true
   | _ => false
 
-/-- LIMIT is either not pushed, or pushed below a LEFT join with nothing left to filter afterwards (a grouped query
-never gets the pushdown any more) -/
+/-- LIMIT is either not pushed, or pushed below a LEFT join (WHERE is then completely evaluated in the first fetch:
+the planner pushes LIMIT only when `whereApplied`) -/
 def limitSound (q : Q2) : Bool :=
-  (plan q).limit0.isNone || (q.kind.isLeft && whereLeftOnly q.w)
+  (plan q).limit0.isNone || q.kind.isLeft
 
 /-- the exact (decidable) hypothesis of `C08_partial_model`; since repo commit 15097fa no condition on outer joins is
 left (filters that accept NULLs are no longer pushed to a null-supplying side), only the LIMIT clause -/
